@@ -54,13 +54,13 @@ func c14Fill(tpl, v, y string) string {
 // c14Tree renders the whole tree for (version, year); decoys always carry the pristine values.
 func c14Tree(v, y string) core.Tree {
 	t := core.Tree{
-		"regex-assembly/":               "",
-		"rules/REQUEST-901-INIT.conf":   c14Fill(c14Markers, v, y),
-		"rules/REQUEST-999-TWICE.conf":  c14Fill(c14Markers+c14Markers+c14Legacy+c14Legacy, v, y),
-		"crs-setup.conf.example":        c14Fill(c14Legacy+c14Markers, v, y),
-		"rules/none.conf":               "# nothing to see\nSecRuleEngine On\n",
-		"rules/nonl.conf":               strings.TrimSuffix(c14Fill(c14Legacy, v, y), "\n"),
-		"plugins/deep/nested/p.conf":    c14Fill(c14Markers, v, y),
+		"regex-assembly/":              "",
+		"rules/REQUEST-901-INIT.conf":  c14Fill(c14Markers, v, y),
+		"rules/REQUEST-999-TWICE.conf": c14Fill(c14Markers+c14Markers+c14Legacy+c14Legacy, v, y),
+		"crs-setup.conf.example":       c14Fill(c14Legacy+c14Markers, v, y),
+		"rules/none.conf":              "# nothing to see\nSecRuleEngine On\n",
+		"rules/nonl.conf":              strings.TrimSuffix(c14Fill(c14Legacy, v, y), "\n"),
+		"plugins/deep/nested/p.conf":   c14Fill(c14Markers, v, y),
 	}
 	// decoys: other extensions keep the pristine text whatever happens
 	for _, p := range []string{"rules/x.conf.bak", "notes.txt", "rules/y.data", ".github/workflows/w.yml", "rules/conf", "example.md"} {
